@@ -20,6 +20,11 @@ open Irismod Irismod.Sdk Irismod.Token Irismod.Props.C10
 #print axioms faulty_mint_rejected
 #print axioms faulty_burn_rejected
 #print axioms swap_fee_exact
+#print axioms conversion_step
+#print axioms conversions_conserve
+#print axioms boundinv_step
+#print axioms boundinv_genesis
+#print axioms boundinv_run
 -- non-vacuity: a token is issued, bound to a contract, converted to ERC20 and back (message and hook),
 -- a misbehaving contract makes the conversion fail, and a registered fee-token swap at ratio 1 is exact
 def demoEnv : Env := { blocked := ["FC"], registry := [("uabc", ("wei", ⟨1000000000000000000⟩))] }
